@@ -38,6 +38,12 @@ Eligible(defined, Base, opts) ==
 
 \* the class (if any) the input must be deserialized as, with a discriminator field
 \* result: Ok(instance) | Err(<<"MissingDiscr", f>>) | Err(<<"NoVariant">>) | Err(...)
+\* A chosen variant that declares a class-level discriminator OF ITS OWN (its own Config, another field) dispatches again
+\* among ITS subclasses: the inner level's outcome -- the instance, or ITS MissingDiscr / NoVariant -- is the outcome
+RECURSIVE UnpackTagged(_, _, _, _, _)
+FromDictD(defined, C, cx, j) ==
+  IF HasOpt(DcCfg(C), "discriminator") THEN UnpackTagged(defined, C, GetOpt(DcCfg(C), "discriminator", <<>>), cx, j)
+  ELSE FromDict(C, cx, j)
 UnpackTagged(defined, Base, opts, cx, j) ==
   LET f == GetOpt(opts, "field", "#nofield")
       el == Eligible(defined, Base, opts) IN
@@ -47,7 +53,7 @@ UnpackTagged(defined, Base, opts, cx, j) ==
            hits == { i \in DOMAIN el : OwnTag(el[i], f) = t } IN
        IF hits = {} THEN Err(<<"NoVariant">>)
        ELSE LET C == el[CHOOSE i \in hits : \A k \in hits : k <= i] IN      \* later registration overwrites
-            FromDict(C, cx, j)
+            FromDictD(defined, C, cx, j)
 
 \* without a field: the eligible classes that accept the input, in trial order
 Acceptors(defined, Base, opts, cx, j) ==
